@@ -193,7 +193,7 @@ fn run(problem: Result<Arc<CoreProblem>, Vec<String>>, gens: usize) -> Value {
         Ok(Err(e)) => return json!({"write_error": e}),
         Err(e) => {
             let msg = e.downcast_ref::<String>().cloned().or_else(|| e.downcast_ref::<&str>().map(|s| s.to_string())).unwrap_or_default();
-            return json!({"panic": format!("write_pragmatic: {msg}")});
+            return json!({"panic": format!("write_pragmatic: {msg}"), "trace_of_panic": tr});
         }
     };
     if !exact {
